@@ -22,6 +22,7 @@ class HistProp:
     n_thorough = 3000
     gen_kw = {}
     prefixes = [None]
+    big_first = False
 
     def make_case(self, ops_list, seed, tags=None):
         steps, final, problems, stats = world.run_history([dict(o) for o in ops_list], seed=seed)
@@ -33,7 +34,7 @@ class HistProp:
             'observed': {'outcomes': stats['outcomes'], 'rows': stats['rows'], 'python_side_problems': problems[:6]},
             'pyfail': None,
             'oracle': '(hist_ok %s %s)' % (steps, final),
-            'aux': '(hist_in_model %s %s)' % (steps, final),
+            'oracle_vec': '(hist_vec %s %s)' % (steps, final),
             'model': '(hist_model_ok %s %s)' % (steps, final),
             'nontrivial': changed >= 2,
             'sig': json.dumps([ops_done, seed], sort_keys=True, default=str),
@@ -53,7 +54,7 @@ class HistProp:
             seed = rng.randrange(1 << 30)
             sub = random.Random(seed)
             prefix = self.prefixes[i % len(self.prefixes)]
-            ops_list = histgen.gen_history(sub, sub.randint(lo, hi), weights=self.weights, seed=seed, prefix=prefix,
+            ops_list = histgen.gen_history(sub, sub.randint(lo, hi), weights=self.weights, seed=seed, prefix=prefix, big_first=self.big_first,
                                            **self.gen_kw)
             cases.append(self.make_case(ops_list, seed))
         return cases
